@@ -67,6 +67,7 @@ type Options struct {
 	Unbuffered      bool // file will be read through the unbuffered path: directories <= 85 entries, values <= 1024
 	PlainStrings    bool
 	FirstIFD        int // > 0: offset of IFD0 (the bytes between the TIFF header and it are padding)
+	ManyEntries     bool // one directory is filled with embedded-value foreign tags up to (or just below) the entry limit: 128, or 85 with Unbuffered
 }
 
 // KnownMakes maps every spelling the library documents to the canonical make name.
@@ -729,6 +730,36 @@ func GenExif(rt *rapid.T, o Options) *ExifFile {
 				f.Foreign++
 			}
 		}
+	}
+	if o.ManyEntries {
+		var cands []int
+		for i, dd := range dirs {
+			if dd.d != nil {
+				cands = append(cands, i)
+			}
+		}
+		dd := dirs[cands[rapid.IntRange(0, len(cands)-1).Draw(rt, "many.dir")]]
+		target := lim - rapid.SampledFrom([]int{0, 0, 1, 2, 10, 28}).Draw(rt, "many.below")
+		for tag := uint16(0x5200); len(dd.d.Entries) < target && tag < 0x5400; tag++ {
+			if usedBy[dd.d][tag] {
+				continue
+			}
+			usedBy[dd.d][tag] = true
+			var v Val
+			switch tag % 4 {
+			case 0:
+				v = Short(tag)
+			case 1:
+				v = Long(uint32(tag) * 65537)
+			case 2:
+				v = Bytes(TByte, []byte{byte(tag), 1, 2})
+			default:
+				v = Short(tag, ^tag)
+			}
+			dd.d.Entries = append(dd.d.Entries, Entry{Tag: tag, V: v, Foreign: true})
+			f.Foreign++
+		}
+		f.Classes = append(f.Classes, fmt.Sprintf("dir-entries:%d", len(dd.d.Entries)))
 	}
 	for _, d := range []*Dir{ifd0, exif, gps} {
 		if d == nil {
